@@ -39,6 +39,8 @@ type Conn struct {
 	Writes        []WriteRec // everything written on this end, in order
 	// Fault injection: fail the n-th Read / Write (0-based) with an error; -1 off.
 	FailRead, FailWrite int
+	// FailWriteIf, if set, is asked about every write; true makes it fail.
+	FailWriteIf func(p []byte) bool
 	reads, writes       int
 	// OnWrite, if set, is called (in the writer's thread) after each write.
 	OnWrite func(p []byte)
@@ -96,6 +98,9 @@ func (c *Conn) Write(p []byte) (int, error) {
 	n := c.writes
 	c.writes++
 	if c.FailWrite >= 0 && n == c.FailWrite {
+		return 0, faultErr{"memconn: injected write error"}
+	}
+	if c.FailWriteIf != nil && c.FailWriteIf(p) {
 		return 0, faultErr{"memconn: injected write error"}
 	}
 	// A write that does not have to wait is not "pending": like a real
